@@ -296,7 +296,10 @@ returns `r` with the text's unit and the printed coordinates; name, comment, con
 --   recogniser of C07 is proved to: `nucleus_roundtrip`) and (ii) default-isotope atoms (`from_arrays_idempotent_c06_plain`'s
 --   class): label-only clues ≡ full clues.  An isotope-labelled atom (mass ≠ default) is NOT carried by the writers at all
 --   (to_string prints no mass), so `hlab` is then false and so is the round trip - by design of the format.
---   `hcm` is discharged below for both shapes the psi4 writer prints (`…_multi`, `…_single`). -/
+--   `hcm` is discharged below for both shapes the psi4 writer prints (`…_multi`, `…_single`).
+--   `hlab` is discharged in Props/C07Label.lean ((i) `matchNucleus_written`, (ii) `written_token_reconciles`, and the converse
+--   `written_token_answer_is_default`); the full-strength theorems are `read_write_validated_psi4_multi / _single` in
+--   Props/C07Full.lean. -/
 theorem read_write_validated_psi4_partial (env : Env) (rd : Rat → Rat) (i₀ : Inp) (r : Molrec)
     (hfix : fromArrays env (asInput i₀ r) = .ok r)
     (m : MolRec) (hok : RecOk m)
@@ -455,7 +458,8 @@ coordinates passing the closeness screen in the text's unit, reading the written
 the printed coordinates and both frame flags off.
 -- FULL: without `hlab` (as for psi4) and without `hcm`: `validate_and_fill_chgmult` with the totals given and the single
 -- fragment's values absent returns `fc = [c]`, `fm = [m]` — a C05 statement (one fragment: candidates S3/S6) not proved here;
--- the correspondence (`RW` lines, xyz / xyz+ writer output read as xyz+) checks it on every generated molecule. -/
+-- the correspondence (`RW` lines, xyz / xyz+ writer output read as xyz+) checks it on every generated molecule.
+-- Both are now proved: `vfc_single_fragment_absent`, `read_write_validated_xyzplus` (Props/C07Full.lean). -/
 theorem read_write_validated_xyzplus_partial (env : Env) (rd : Rat → Rat) (i₀ : Inp) (r : Molrec)
     (hfix : fromArrays env (asInput i₀ r) = .ok r)
     (natS : Str) (m : MolRec) (hok : XyzOk natS m) (hname : Clean m.name) (hne : allAtoms m ≠ [])
